@@ -79,7 +79,11 @@ func (p *Printer) printTransaction(t *model.Transaction) (n int, err error) {
 			return p.count - start, err
 		}
 	}
-	if _, err := fmt.Fprintf(p, "%s \"%s\"", t.Date.Format("2006-01-02"), t.Description); err != nil {
+	// The syntax has no escape for the quote character. Descriptions which
+	// come from a journal file never contain one, but the free text of a
+	// bank statement may: replace it, so that the output always parses.
+	description := strings.ReplaceAll(t.Description, "\"", "'")
+	if _, err := fmt.Fprintf(p, "%s \"%s\"", t.Date.Format("2006-01-02"), description); err != nil {
 		return p.count - start, err
 	}
 	if _, err := io.WriteString(p, "\n"); err != nil {
